@@ -155,6 +155,21 @@ def samekind_map(name, dep, kind, vname, mul=1, add=0, fail_at=None, save_when=s
     return SK
 
 
+def lagged(cls, lag):
+    """The same plugin, holding back `lag` result chunks: result k is delivered only after result k + lag has been computed (what a
+    plugin that looks ahead does to the chunk flow); everything held is delivered when the input ends."""
+    class Lagged(cls):
+        def iter(self, iters, executor=None):
+            held = []
+            for out in super().iter(iters, executor=executor):
+                held.append(out)
+                if len(held) > lag:
+                    yield held.pop(0)
+            yield from held
+    Lagged.__name__ = cls.__name__ + f"_lag{lag}"
+    return Lagged
+
+
 def combine(name, deps, vnames, fail_at=None, save_when=strax.SaveWhen.ALWAYS, rec=None, step_hook=None,
             rechunk_on_save=True):
     """Depends on several same-kind data types (merged by strax): v = sum of their payload fields."""
